@@ -105,16 +105,22 @@ def process_nodes_recursive(
     variables=None,
     mode=1,
     premium=False,
+    rule_declarations=None,
 ):
     if variables is None:
         variables = {}
 
     for node in node_list:
         if isinstance(node, QualifiedRule):
-            # Process declarations
-            declarations = tinycss2.parse_declaration_list(
-                node.content, skip_whitespace=False, skip_comments=False
-            )
+            # Process declarations. Rules whose declarations were already parsed by the
+            # caller (:root / html) must reuse that list: it is what gets written back.
+            declarations = None
+            if rule_declarations is not None:
+                declarations = rule_declarations.get(id(node))
+            if declarations is None:
+                declarations = tinycss2.parse_declaration_list(
+                    node.content, skip_whitespace=False, skip_comments=False
+                )
             valid_decls = [d for d in declarations if isinstance(d, Declaration)]
 
             modified = False
@@ -354,6 +360,7 @@ def main(path, default_bg, mode, premium):
                 variables,
                 mode=mode,
                 premium=premium,
+                rule_declarations=rule_declarations_map,
             )
 
             # Post-process: Update content of rules that had variables modified
